@@ -25,7 +25,8 @@ from .ops import Unsupported, truth, b2v, i2v, zint, zbool, zseq, to_val, to_vl,
 # run-time structures
 # ---------------------------------------------------------------------------------------------
 import re
-INTERNAL_TRACE = re.compile(r"\b(n_callees|callee_arg|callee_result|n_events|n_ev|all_calls_from_callee|all_getattr_on)\b")
+INTERNAL_TRACE = re.compile(r"\b(n_callees|callee_arg|callee_result|n_events|n_ev|all_calls_from_callee|all_getattr_on|"
+                            r"n_requests|request_kind|request_conn|request_args|request_result|n_ops|op_name|op_target|op_args|op_result|n_local)\b")
 
 
 class CheckerError(Exception):
@@ -236,9 +237,13 @@ class Executor(object):
         tree = ast.parse(src)
         parts = qualname.split(".")
         cands = [tree]
+        encl = None
         for p in parts:
             if p == "<locals>":
                 continue
+            ordinal = None
+            if "#" in p:                      # `method#1`: the second nested def of that name, in source order
+                p, ordinal = p.split("#")[0], int(p.split("#")[1])
             nxt = []
             for c in cands:
                 for ch in ast.walk(c):
@@ -246,8 +251,15 @@ class Executor(object):
                         nxt.append(ch)
             if not nxt:
                 raise CheckerError("cannot find %s in %s" % (qualname, relfile))
+            nxt.sort(key=lambda n: n.lineno)
+            if ordinal is not None:
+                if ordinal >= len(nxt):
+                    raise CheckerError("cannot find %s in %s (only %d definitions)" % (qualname, relfile, len(nxt)))
+                nxt = [nxt[ordinal]]
+            encl = cands[0]
             cands = nxt
         node = cands[0]
+        self.enclosing_node = encl
         obj = mod
         funcobj = None
         if "<locals>" not in parts:
@@ -293,6 +305,12 @@ class Executor(object):
         self.obligations.append(Obligation(oid, list(st.pc) + list(extra_hyps), goal, props, kind, note,
                                            meta={"labels": list(st.labels), "function": c.target,
                                                  "behaviour": b.name}))
+
+    def netref_refcounts0(self):
+        """____refcount__ of every proxy object at function entry (a heap array keyed by the proxy value)"""
+        if not hasattr(self, "_refcounts0"):
+            self._refcounts0 = SArr(z3.Const("$refcount0", z3.ArraySort(Val, Int)))
+        return self._refcounts0
 
     def clock0(self):
         if not hasattr(self, "_clock0"):
@@ -431,8 +449,23 @@ class Executor(object):
                 raise CheckerError("contract of %s lacks parameter %s" % (contract.target, a))
             st.env[a] = self.fresh_of(beh.params.get(a, contract.params[a]), a)
         for p in contract.params:
+            if p in contract.free:
+                continue
             if p not in argnames:
                 raise CheckerError("stale contract %s: parameter %s no longer exists" % (contract.target, p))
+        for fv, srt in contract.free.items():
+            if srt == "enclosing_literal":
+                # a closure cell whose value the enclosing function assigns once, from a literal: read from the real AST
+                found = [a for a in ast.walk(self.enclosing_node) if isinstance(a, ast.Assign) and len(a.targets) == 1 and
+                         isinstance(a.targets[0], ast.Name) and a.targets[0].id == fv]
+                if len(found) != 1:
+                    raise CheckerError("stale contract %s: free variable %s is not assigned exactly once in the enclosing function" % (contract.target, fv))
+                try:
+                    st.env[fv] = ast.literal_eval(found[0].value)
+                except ValueError:
+                    raise CheckerError("stale contract %s: free variable %s is no longer a literal" % (contract.target, fv))
+            else:
+                st.env[fv] = self.fresh_of(srt, fv)
         for g, s in beh.ghost.items():
             st.ghost[g] = self.fresh_of(s, g)
         self.type_invariants(st, st.env.values())
@@ -527,7 +560,7 @@ class Executor(object):
                             note="no `raises` entry allows this exception: the path must be infeasible")
                 return
             name, spec = allowed
-            scope = self.spec_scope(st, dict(pre.env, exc=out.value))
+            scope = self.spec_scope(st, dict({"exc": out.value}, raised_exc=out.value, **pre.env))
             if spec.get("variants"):
                 # alternatives for this exit (e.g. transport still open / transport died): the one whose exact
                 # field values (`sets`) hold on this path is the one checked
@@ -617,6 +650,8 @@ class Executor(object):
         for k, v in st.heap.items():
             if k in allowed:
                 continue
+            if k == ("$netref", "refcount") and "$refcounts" in modifies:
+                continue
             old = pre.heap.get(k, self.field_init.get(k, None))
             if old is v:
                 continue
@@ -634,9 +669,14 @@ class Executor(object):
         return o is not None and o.allocated
 
     def obj_name(self, oid):
-        return self.oid_names.get(oid, "#%d" % oid)
+        return self.oid_names.get(oid, "#%s" % (oid,))
 
     def resolve_location(self, st, m):
+        if m == "$refcounts":
+            return set()
+        return self._resolve_location(st, m)
+
+    def _resolve_location(self, st, m):
         """modifies entry -> set of heap keys.  Forms: 'x' (contents of the list/obj bound to x),
         'x.f' (field f of the object bound to x)"""
         parts = m.split(".")
@@ -773,6 +813,15 @@ class Executor(object):
                 if isinstance(o, Raised):
                     res.append((st1, o))
                     continue
+                if isinstance(o, SVal) and target.attr == "____refcount__":
+                    arr = st1.heap[("$netref", "refcount")] if ("$netref", "refcount") in st1.heap else self.netref_refcounts0()
+                    st1.heap[("$netref", "refcount")] = SArr(z3.Store(arr.z, o.z, zint(v)))
+                    res.append((st1, None))
+                    continue
+                if isinstance(o, SVal):
+                    for s2, r in self.lib.dyn_attr_event(self, st1, "SetAttr", o, target.attr, target, value=to_val(v)):
+                        res.append((s2, r if isinstance(r, Raised) else None))
+                    continue
                 if not isinstance(o, Obj):
                     raise Unsupported("attribute assignment on %r (line %d)" % (o, target.lineno))
                 if self.field_sort(o, target.attr) == "vlist" and isinstance(v, Obj) and v.kind == "joinlist" and \
@@ -886,7 +935,19 @@ class Executor(object):
             yield f, False
 
     def feasible(self, st):
-        return self.spec.quick_feasible(st.pc)
+        if not self.spec.quick_feasible(st.pc):
+            return False
+        if self.cur is not None and self.cur[0].solver_pruning:
+            # the contract asks for branch pruning by the solver (paths the precondition excludes contain constructs
+            # outside the subset): a path is dropped only on `unsat`
+            s = z3.Solver()
+            s.set("timeout", 1000)
+            for h in st.pc:
+                s.add(h)
+            if s.check() == z3.unsat:
+                self.pruned = getattr(self, "pruned", 0) + 1
+                return False
+        return True
 
     def truth_of(self, st, v):
         if isinstance(v, Obj) and v.kind == "vlist":
@@ -1551,6 +1612,14 @@ class Executor(object):
             for r in self.lib.obj_getattr(self, st, o, name, node):
                 yield r
             return
+        if isinstance(o, Sym) and name in self.cur[0].self_methods and o is st.env.get(self.cur[0].self_name):
+            # `self.<name>` for a name the class itself defines and that no generated subclass may override
+            # (the contract states why): resolved statically to the class's own function
+            cls = getattr(self.cur[3], self.cur[0].qualname.split(".")[0])
+            self.lib.used.add("self.%s inside %s resolves to the class's own method: %s" % (
+                name, self.cur[0].qualname, self.cur[0].self_methods[name]))
+            yield st, BoundMethod(o, vars(cls)[name], name)
+            return
         if isinstance(o, Sym):
             for r in self.lib.sym_getattr(self, st, o, name, node):
                 yield r
@@ -2117,6 +2186,8 @@ class Executor(object):
                 if key not in keys:
                     keys.append(key)
         objs = {o.oid: o for o in list(self.live_objs(tmp)) + list(self.live_objs(st))}
+        if "$refcounts" in modifies:
+            st.heap[("$netref", "refcount")] = SArr(fresh("refcount~%s" % tag, z3.ArraySort(Val, Int)))
         for key in keys:
             oid, fld = key
             if fld == "joined":
